@@ -566,6 +566,58 @@ func ruleC09IfElseLast(p *Prog, a *Anchors, r *Report) {
 			guarded = true
 		}
 	}
+	// … or the loop goes on only after an `elif` (every back edge lies on the Endtag == "elif" side): `else` ends it, and
+	// what follows the else-part is checked outside the loop
+	if !guarded {
+		isElifEdge := func(c ssa.Value, pol bool) bool {
+			bo, ok := c.(*ssa.BinOp)
+			if !ok || (bo.Op != token.EQL && bo.Op != token.NEQ) {
+				return false
+			}
+			for _, pr := range [][2]ssa.Value{{bo.X, bo.Y}, {bo.Y, bo.X}} {
+				if s, isC := constString(pr[1]); isC && s == "elif" && loadsField(pr[0], "NodeWrapper", "Endtag") {
+					return (bo.Op == token.EQL) == pol
+				}
+			}
+			return false
+		}
+		back, all := 0, true
+		for _, pr := range hdr.Preds {
+			if !hdr.Dominates(pr) || len(pr.Instrs) == 0 {
+				continue
+			}
+			back++
+			if !Guarded(pr.Instrs[len(pr.Instrs)-1], isElifEdge) {
+				all = false
+			}
+		}
+		if back > 0 && all {
+			// … and after the loop, what follows an else is accepted only when it is closed by endif: a refusal guarded
+			// by an Endtag comparison stands outside the loop
+			for _, b := range f.Blocks {
+				if hdr.Dominates(b) && ReachableBlocks(b)[hdr] {
+					continue // inside the loop
+				}
+				if !errorReturnsOnly(f, b) || len(b.Instrs) == 0 {
+					continue
+				}
+				if Guarded(b.Instrs[0], func(c ssa.Value, pol bool) bool {
+					bo, ok := c.(*ssa.BinOp)
+					if !ok || (bo.Op != token.EQL && bo.Op != token.NEQ) {
+						return false
+					}
+					for _, pr := range [][2]ssa.Value{{bo.X, bo.Y}, {bo.Y, bo.X}} {
+						if s, isC := constString(pr[1]); isC && s == "endif" && loadsField(pr[0], "NodeWrapper", "Endtag") {
+							return (bo.Op == token.NEQ) == pol
+						}
+					}
+					return false
+				}) {
+					guarded = true
+				}
+			}
+		}
+	}
 	// … or the names handed to WrapUntilTag differ from pass to pass
 	if c := wrapCall.(*ssa.Call); len(c.Common().Args) > 1 {
 		if _, isPhi := c.Common().Args[1].(*ssa.Phi); isPhi {
